@@ -47,6 +47,18 @@ DESCR = {
  "C20-b": ("controlling side forgets the latest applied value when re-nominating the still-selected pair", "renominate A (N), renominate back to the selected pair B (N+1) before answer N; answers reordered"),
  "C12-a": ("stale 'last written address' fast path after a take-over", "ownership sequence A→X, B→X, A→X with A writing nowhere else in between"),
  "C12-b": ("IP family for the ufrag lookup taken from the raw (IPv4-mapped) source", "first STUN packet of an unseen source arrives in IPv4-mapped form"),
+ "C01-c": ("both reach Connected: a new check on a pair deletes the transaction still pending for that pair", "every answer arrives later than the next check on its pair (RTT > check interval) for the whole retry budget and the last check is lost"),
+ "C01-d": ("controlling side selects on the answer of an ordinary check once nomination has begun, and stops nominating", "two ordinary checks in flight before the first answer; the single USE-CANDIDATE request is lost; the late second answer arrives"),
+ "C03-c": ("role/enable check of RenominateCandidate hoisted out of the task loop (TOCTOU with a role switch)", "renomination enabled; RenominateCandidate queued behind an inbound role-conflicting check that the agent loses"),
+ "C03-d": ("Restart keeps the in-flight transactions younger than 4 s", "controlling agent restarted with a nomination unanswered; peer keeps password and address; the old answer arrives after the remote candidate was re-added"),
+ "C06-c": ("Restart of an agent that was never started keeps checklist, pair index, pending transactions and selection", "candidates added on both sides (pairs exist) before Start, then Restart"),
+ "C06-d": ("addCandidate queues its task under the loop context instead of the gather context (rebased on fix f5f740e: and without the in-loop re-check)", "a gatherer inside addCandidate after the context pre-check when Restart runs"),
+ "C08-c": ("tcpPacketConn read loop blocks on a full receive queue while holding what Close waits for", "TCP mux passive candidate with a small read buffer, peer floods it while nothing drains, then Close"),
+ "C08-d": ("Close waits for the gathering goroutine only when the state is still Gathering", "GatherCandidates, Restart (state back to New) with the cancelled cycle still winding down, then Close"),
+ "C09-c": ("srflx UDP-mux gatherer takes the muxed conn before the STUN round trip and drops it on the error return", "UDPMuxSrflx configuration and a failed/unanswered/cancelled STUN exchange"),
+ "C09-d": ("relay release hook attached to the last alias of an allocation instead of the first", "relay address rewrite yielding ≥2 addresses and Restart/Close while the TURN Allocate is in flight, response afterwards"),
+ "C12-c": ("connWorker registers the source address on receive after the ufrag lookup", "STUN from a new address carrying the ufrag of a conn → later non-STUN from that address; or an address moving between conns"),
+ "C12-d": ("a muxed conn closed through its own Close keeps its address bindings", "conn.Close() (not RemoveConnByUfrag) after addresses were bound, then traffic from those addresses / a new conn with another ufrag"),
 }
 res = {}
 for ln in open('/verif/.work/confirm_results.txt'):
